@@ -117,6 +117,53 @@ def gen_token_mutations(rng, progs, n):
     return out
 
 
+def gen_semantic_mutations(rng, progs, n):
+    """Mutations that mostly keep the syntax valid, so that the static checker (resolver, CFG,
+    liveness, ...) sees ill-scoped / ill-typed / oddly ordered programs: identifier and literal
+    replacement, line swaps, line deletion / duplication, wrapping lines into functions or loops."""
+    idents = sorted({p for t in progs for p in pieces(t) if re.fullmatch(r"[A-Za-z_][A-Za-z_0-9]*", p)})
+    keywords = {"make", "get", "add", "minus", "times", "divide", "mod", "and", "or", "not", "jasi", "start", "end", "comot",
+                "next", "na", "pass", "small", "if", "to", "say", "so", "true", "false", "null", "do", "return"}
+    names = [i for i in idents if i not in keywords] or ["x"]
+    lits = ["0", "1", "2.5", '"s"', '"{x}"', "true", "false", "null", "[]", "[1, 2]", "x", "f()", "(1 add 2)"]
+    out = []
+    for _ in range(n):
+        lines = rng.choice(progs).split("\n")
+        for _ in range(rng.randint(1, 4)):
+            if not lines:
+                break
+            i = rng.randrange(len(lines))
+            op = rng.random()
+            if op < 0.25:
+                ps = pieces(lines[i])
+                idx = [k for k, p in enumerate(ps) if p in names]
+                if idx:
+                    ps[rng.choice(idx)] = rng.choice(names)
+                lines[i] = "".join(ps)
+            elif op < 0.45:
+                ps = pieces(lines[i])
+                idx = [k for k, p in enumerate(ps) if re.fullmatch(r"[0-9.]+|\".*\"|true|false|null", p)]
+                if idx:
+                    ps[rng.choice(idx)] = rng.choice(lits)
+                lines[i] = "".join(ps)
+            elif op < 0.6:
+                j = rng.randrange(len(lines))
+                lines[i], lines[j] = lines[j], lines[i]
+            elif op < 0.7:
+                del lines[i]
+            elif op < 0.8:
+                lines.insert(i, lines[i])
+            elif op < 0.9:
+                j = min(len(lines), i + rng.randint(1, 4))
+                head = rng.choice(["do w%d() start" % rng.randrange(3), "jasi (true) start", "if to say (true) start", "start"])
+                lines[i:j] = [head] + lines[i:j] + ["end"]
+            else:
+                lines.insert(i, rng.choice(["comot", "next", "return 1", "make %s get %s" % (rng.choice(names), rng.choice(lits)),
+                                            "%s get %s" % (rng.choice(names), rng.choice(lits)), "%s()" % rng.choice(names)]))
+        out.append("\n".join(lines))
+    return out
+
+
 def gen_noise(rng, progs, n):
     out = []
     for _ in range(n):
@@ -243,6 +290,7 @@ def gen_cases(env):
         ("corpus", corpus_cases()),
         ("adjacency", gen_adjacency()),
         ("token-mutation", gen_token_mutations(rng, progs, 1500 if quick else 40000)),
+        ("semantic-mutation", gen_semantic_mutations(rng, progs, 1500 if quick else 40000)),
         ("byte-noise", gen_noise(rng, progs, 1500 if quick else 40000)),
         ("truncation", gen_truncations(progs, 6000 if quick else 10 ** 9)),
         ("layout", gen_layouts(rng, progs, 400 if quick else 8000)),
@@ -461,10 +509,20 @@ def model_spans_wf(text, block):
     return True
 
 
-def shrink(env, text, pred, budget=120):
+def shrink(env, text, pred, budget=400):
     """Greedy character-wise delta debugging while pred(text) holds."""
     cur = text
     n = 0
+    lines = cur.split("\n")
+    i = 0
+    while len(lines) > 1 and i < len(lines) and n < budget:
+        cand = "\n".join(lines[:i] + lines[i + 1:])
+        n += 1
+        if pred(cand):
+            lines = lines[:i] + lines[i + 1:]
+        else:
+            i += 1
+    cur = "\n".join(lines)
     chunk = max(1, len(cur) // 2)
     while chunk >= 1 and n < budget:
         i = 0
@@ -647,7 +705,7 @@ def correspond(env, searching=False, model=True):
         "distinct_nontrivial": len(nontrivial),
         "rule": "distinct source texts (hash of the bytes) on which the implementation passed the oracle and the lexer produced at least one "
                 "token or diagnostic; streams: corpus, multi-byte adjacency to every token kind, token-level mutations, byte noise decoded with "
-                "replacement, every prefix of sample programs, CR/LF/CRLF/tab/FF layouts, many-locals nested functions, bounded-exhaustive strings",
+                "replacement, syntax-preserving semantic mutations, every prefix of sample programs, CR/LF/CRLF/tab/FF layouts, many-locals nested functions, bounded-exhaustive strings",
         "samples": samples,
         "failures": failures,
         "disagreements": disagreements,
